@@ -12,10 +12,11 @@ fn main() {
     let u = spec.universe().all_open();
     let n = u.len() as u64;
     ctx.run_slice(Slice::new(format!("typed-pairs[{}^2]", spec.name()), n * n, |i, loc| check_pair::<B>(&u[(i / n) as usize], &u[(i % n) as usize], loc)));
-    let spec1 = if quick { Spec::open(3, 1, 2, 2, 2, 2, 2) } else { Spec::open(3, 2, 2, 2, 2, 2, 2) };
-    let u1 = spec1.universe();
-    let cap = if quick { 600_000 } else { 40_000_000 };
-    ctx.run_slice(Slice::new(format!("typed-single[{} first {}]", spec1.name(), cap.min(u1.count())), u1.count().min(cap), |i, loc| check_single::<B>(&u1.get_open(i), loc)));
+    let specs1 = if quick { vec![Spec::open(3, 1, 2, 2, 2, 2, 2)] } else { Spec::family_3x2(2, 0, true) };
+    for spec1 in specs1 {
+        let u1 = spec1.universe();
+        ctx.run_slice(Slice::new(format!("typed-single[{}]", spec1.name()), u1.count(), |i, loc| check_single::<B>(&u1.get_open(i), loc)));
+    }
     // operation batches: <=3 operations, types of length <=2 over 2 labels, 2 operation labels
     let tys: Vec<Vec<u8>> = lists(2, 2).into_iter().map(|l| l.into_iter().map(|x| x as u8).collect()).collect();
     let mut one: Vec<(u8, Vec<u8>, Vec<u8>)> = vec![];
@@ -50,10 +51,18 @@ fn main() {
     let lu = lspec.universe().all();
     let ln = lu.len() as u64;
     ctx.run_slice(Slice::new(format!("lax-typed-pairs[{}^2]", lspec.name()), ln * ln, |i, loc| check_lax_pair(&lu[(i / ln) as usize], &lu[(i % ln) as usize], loc)));
-    let lspec1 = if quick { Spec::lax(3, 1, 2, 2, 2, 1, 1, 2) } else { Spec::lax(3, 2, 2, 2, 2, 1, 1, 2) };
-    let lu1 = lspec1.universe();
-    let capl = if quick { 1_000_000 } else { 40_000_000 };
-    ctx.run_slice(Slice::new(format!("lax-typed-single[{} first {}]", lspec1.name(), capl.min(lu1.count())), lu1.count().min(capl), |i, loc| check_lax_single(&lu1.get(i), loc)));
+    // complete universes: <=2 nodes with <=1 hyperedge, and 3 nodes with <=1 hyperedge under one label per sort or
+    // unary hyperedges (quick); thorough: everything with <=1 hyperedge, everything on <=2 nodes, 3 nodes x 2 hyperedges
+    // with one label per sort or unary hyperedges; <=2 pending pairs throughout
+    let lspecs1 = if quick {
+        vec![Spec::lax(2, 1, 2, 2, 2, 1, 1, 2), Spec { n_min: 3, lw: 1, lx: 1, ..Spec::lax(3, 1, 2, 2, 2, 1, 1, 2) }, Spec { n_min: 3, ks: 1, kt: 1, ..Spec::lax(3, 1, 2, 2, 2, 1, 1, 2) }]
+    } else {
+        Spec::family_3x2(1, 2, false)
+    };
+    for lspec1 in lspecs1 {
+        let lu1 = lspec1.universe();
+        ctx.run_slice(Slice::new(format!("lax-typed-single[{}]", lspec1.name()), lu1.count(), |i, loc| check_lax_single(&lu1.get(i), loc)));
+    }
     // the other checked constructors on raw data (shared with C06 / C08)
     let c6 = C06::new(true);
     let n6 = c6.families.iter().find(|f| f.0 == "new").unwrap().1;
@@ -65,10 +74,11 @@ fn main() {
         ctx.run_slice(Slice::new(format!("raw-IndexedCoproduct/Operations::{}", fam), cnt, move |i, loc| c.run(fam, i, loc)));
     }
     // deletions keep lax diagrams well-formed
-    let dspec = if quick { Spec::lax(3, 1, 2, 2, 1, 1, 1, 1) } else { Spec::lax(3, 2, 2, 2, 1, 2, 2, 1) };
-    let du = dspec.universe();
-    let capd = if quick { 300_000 } else { 20_000_000 };
-    ctx.run_slice(Slice::new(format!("lax-deletions-stay-well-formed[{} first {}]", dspec.name(), capd.min(du.count())), du.count().min(capd), |i, loc| check_lax_deletions(&du.get(i), loc)));
+    let dspecs = if quick { vec![Spec::lax(3, 1, 2, 2, 1, 1, 1, 1)] } else { Spec::family_3x2(2, 1, false).into_iter().map(|s| Spec { lx: 1, ..s }).collect() };
+    for dspec in dspecs {
+        let du = dspec.universe();
+        ctx.run_slice(Slice::new(format!("lax-deletions-stay-well-formed[{}]", dspec.name()), du.count(), |i, loc| check_lax_deletions(&du.get(i), loc)));
+    }
     // the Forget functors return well-formed, type-preserving diagrams (variable hyperedges of arity <=3 x <=3)
     let sft = ohmc::props::c19::structured_forget_terms();
     ctx.run_slice(Slice::new(format!("forget-functor-outputs[{} terms]", sft.len()), sft.len() as u64, |i, loc| ohmc::props::c19::check_forget_term(&sft[i as usize], loc)));
